@@ -67,9 +67,30 @@ func (n *simNotifier) RegisterBlockEpochNtfn(*chainntnfs.BlockEpoch) (*chainntnf
 
 // interceptor is the HtlcInterceptor stub: it cancels the HTLC set when told to
 // by the current command, and never modifies amounts.
-type interceptor struct{ cancelSet bool }
+//
+// It is also a scheduling point the simulator owns: when window is set the
+// call parks (durably, on a channel) until the simulator releases it, which is
+// how "something else happened while the external interceptor was thinking"
+// becomes a replayable interleaving. lnd holds the registry lock across the
+// call, so only work that does not need that lock can be scheduled inside the
+// window: the event loop's MPP hold timers.
+type interceptor struct {
+	cancelSet bool
+	window    bool
+	parked    chan struct{}
+	release   chan struct{}
+}
+
+func newInterceptor() *interceptor {
+	return &interceptor{parked: make(chan struct{}, 1), release: make(chan struct{})}
+}
 
 func (i *interceptor) Intercept(_ invoices.HtlcModifyRequest, cb func(invoices.HtlcModifyResponse)) error {
+	if i.window {
+		i.window = false
+		i.parked <- struct{}{}
+		<-i.release
+	}
 	if i.cancelSet {
 		cb(invoices.HtlcModifyResponse{CancelSet: true})
 	}
@@ -102,7 +123,7 @@ type World struct {
 }
 
 func newWorld(r *simcore.Run, name string, sql bool, cfg RegCfg, start time.Time, height uint32) *World {
-	w := &World{r: r, Name: name, SQL: sql, cfg: cfg, clk: NewSimClock(start), icpt: &interceptor{}}
+	w := &World{r: r, Name: name, SQL: sql, cfg: cfg, clk: NewSimClock(start), icpt: newInterceptor()}
 	w.dir = r.SubDir("world-" + name)
 	for i := 0; i < cfg.Links; i++ {
 		w.links = append(w.links, newActor(fmt.Sprintf("link%d", i)))
@@ -139,11 +160,11 @@ func (w *World) boot(height uint32) {
 		w.idb = cdb
 	}
 	w.notifier = &simNotifier{epochs: make(chan *chainntnfs.BlockEpoch, 64)}
-	watcher := invoices.NewInvoiceExpiryWatcher(w.clk, w.cfg.HoldExpiryDelta, height, nil, w.notifier)
+	watcher := invoices.NewInvoiceExpiryWatcher(taggedClock{w.clk, "watcher"}, w.cfg.HoldExpiryDelta, height, nil, w.notifier)
 	w.reg = invoices.NewRegistry(w.idb, watcher, &invoices.RegistryConfig{
 		FinalCltvRejectDelta: w.cfg.RejectDelta,
 		HtlcHoldDuration:     w.cfg.HoldDuration,
-		Clock:                w.clk,
+		Clock:                taggedClock{w.clk, "registry"},
 		AcceptKeySend:        w.cfg.AcceptKeySend,
 		AcceptAMP:            w.cfg.AcceptAMP,
 		KeysendHoldTime:      w.cfg.KeysendHold,
@@ -245,6 +266,45 @@ func (w *World) Notify(h *HtlcSpec, height uint32, cancelSet bool) Verdict {
 	a := w.links[h.Link%len(w.links)]
 	w.on(a, w.notifyFn(h, height, cancelSet, a, &v))
 	return v
+}
+
+// NotifyWindow is Notify with time passing while the call sits in the HTLC
+// interceptor: the call parks there, the clock moves on by d and the
+// registry's own timers that come due (MPP hold timeouts) run to quiescence
+// one by one, then the call is released. The expiry watcher's timers need the
+// registry lock the parked call holds; they fire late, after the call has
+// returned, as they would in a real process. It reports the number of timers
+// fired inside the window, or -1 when the call never reached the interceptor.
+func (w *World) NotifyWindow(h *HtlcSpec, height uint32, cancelSet bool, d time.Duration) (Verdict, int) {
+	var v Verdict
+	a := w.links[h.Link%len(w.links)]
+	f := w.notifyFn(h, height, cancelSet, a, &v)
+	w.icpt.window = true
+	done := false
+	a.cmds <- func() { f(); done = true }
+	synctest.Wait()
+	inside := -1
+	select {
+	case <-w.icpt.parked:
+		inside = w.clk.AdvanceOnly(w.clk.Now().Add(d), "registry")
+		w.icpt.release <- struct{}{}
+		synctest.Wait()
+	default:
+		// refused before the interceptor was consulted: time passes after
+		// the call instead.
+		w.icpt.window = false
+	}
+	if !done {
+		w.r.Harness("%s/%s: call did not return at quiescence (blocked inside lnd?)", w.Name, a.name)
+	}
+	// whatever came due meanwhile and had to wait for the lock
+	w.clk.AdvanceTo(w.clk.Now().Add(func() time.Duration {
+		if inside < 0 {
+			return d
+		}
+		return 0
+	}()))
+	return v, inside
 }
 
 func (w *World) notifyFn(h *HtlcSpec, height uint32, cancelSet bool, a *actor, out *Verdict) func() {
